@@ -187,3 +187,15 @@ func (c *Conn) Close() error {
 	c.swarm.deleteConn(c)
 	return err
 }
+
+// abandon closes a connection whose loop will never run. The goroutines of the ssh connection cannot end while a
+// request that has already arrived waits to be taken, so whatever arrived is discarded.
+func (c *Conn) abandon() {
+	c.sconn.Close()
+	go ssh.DiscardRequests(c.reqs)
+	go func() {
+		for ncr := range c.newChanReqs {
+			ncr.Reject(ssh.Prohibited, "closed")
+		}
+	}()
+}
